@@ -10,7 +10,7 @@ _l.exec_module(_m)
 reg = _m.load_registry()
 ids = [json.loads(l)["id"] for l in open(os.path.join(V, "properties.jsonl"))]
 na = json.load(open(os.path.join(V, "tools", "na.json")))
-enabled = set(json.load(open(os.path.join(V, "tools", "enabled.json"))))
+enabled = set(json.load(open(os.path.join(V, "tools", "enabled.json")))["properties"])
 checks = []
 for i in ids:
     if i not in reg or i not in enabled:
